@@ -41,5 +41,32 @@ func Specs() map[string]*PropSpec {
 		Assumptions: []string{"Context.KVStore replaced by the harness multistore (gas metering wrapper skipped)", "codec modelled as typed blobs (Marshal/Unmarshal inverse pair)", "big.Int / math.Int / LegacyDec theory summaries"},
 		Stubs:       []string{"zzverif.MemStore (in-memory KVStore)", "zzverif blob codec"},
 	}
+	lt := func(fn string, kv ...string) Inst { return Inst{Pkg: "x/liquidvesting/types", Fn: fn, Params: pm(kv...)} }
+	m["C11"] = &PropSpec{
+		ID: "C11", Pkgs: []string{"./x/liquidvesting/types"},
+		Quick: []Inst{lt("VerifC11_Split", "n", "1"), lt("VerifC11_Split", "n", "3"), lt("VerifC11_Split", "n", "2", "denoms", "2"),
+			lt("VerifC11_NoEarlyUnlock", "n", "1"), lt("VerifC11_NoEarlyUnlock", "n", "2"), lt("VerifC11_NoEarlyUnlock", "n", "3")},
+		Thorough: []Inst{lt("VerifC11_Split", "n", "1"), lt("VerifC11_Split", "n", "3"), lt("VerifC11_Split", "n", "5"), lt("VerifC11_Split", "n", "3", "denoms", "2"),
+			lt("VerifC11_NoEarlyUnlock", "n", "1"), lt("VerifC11_NoEarlyUnlock", "n", "2"), lt("VerifC11_NoEarlyUnlock", "n", "3"), lt("VerifC11_NoEarlyUnlock", "n", "4")},
+		Bounds: map[string]string{
+			"quick":    "lockup schedules of <= 3 periods (split and liquid-schedule construction), amounts in [0,2^100), subtrahend in [0,2^100), start in [0,2^60], lengths in [0,2^56], liquidation and read times in [0,2^61]",
+			"thorough": "split up to 5 periods, liquid-schedule construction up to 4 periods; same value ranges",
+		},
+		Outside:     []string{"keeper-level bookkeeping of Liquidate/Redeem (module escrow, denom table, ERC20 side) - planned keeper harness", "more periods than the bound", "liquidation at or before the schedule start (rejected by Liquidate because nothing is vested then)"},
+		Assumptions: []string{"theory summaries of sdk.Coins / math.Int", "the composition of Liquidate's schedule computation is replayed in the harness with the same calls in the same order (ExtractUpcomingPeriods, SubtractAmountFromPeriods, ReplacePeriodsTail, CurrentPeriodShift)"},
+	}
+	ck := func(fn string, kv ...string) Inst { return Inst{Pkg: "x/coinomics/keeper", Fn: fn, Params: pm(kv...)} }
+	m["C13"] = &PropSpec{
+		ID: "C13", Pkgs: []string{"./x/coinomics/keeper"},
+		Quick:    []Inst{ck("VerifC13_Mint"), ck("VerifC13_Disabled"), ck("VerifC13_Reactivation")},
+		Thorough: []Inst{ck("VerifC13_Mint", "years", "all"), ck("VerifC13_Disabled"), ck("VerifC13_Reactivation")},
+		Bounds: map[string]string{
+			"quick":    "one EndBlocker step from an arbitrary state: bonded, supply, max supply in [0,2^100), reward coefficient any Dec in [0,100], previous timestamp in [0,2^45) ms, block time anywhere inside each of the calendar years {1970,1999,2000,2023,2024,2100,2104,2200,2300,2399}; two-step history disable -> enable",
+			"thorough": "same with the block time anywhere inside every calendar year 1970..2399",
+		},
+		Outside:     []string{"block times after 2400 or before 1970", "distribution of the fee collector balance by x/distribution", "histories longer than two steps (single-step facts are inductive: they are proved from an arbitrary pre-state)"},
+		Assumptions: []string{"bank stub moves coins exactly as asked (conservation by construction)", "staking stub returns an arbitrary bonded amount", "legacy param subspace modelled as one typed blob", "LegacyDec theory (Mul/Quo with banker's rounding)"},
+		Stubs:       []string{"c13Bank", "c13Staking", "zzverif.MemStore", "zzverif param subspace"},
+	}
 	return m
 }
